@@ -53,7 +53,7 @@ func C10(e *Env) {
 	r := e.R
 	e.analysedBase()
 	r.Rule("R10.1", "exactly one call of a file-mutating API exists in module code: os.WriteFile in StepCodeGenerator.Run, whose path derives from the step's outputFile field only", 1)
-	r.Rule("R10.2", "that write is reachable only through the success edge of builder.Build, writes Build's result, and every 'return nil' of the step lies behind the success edge of the write", 3)
+	r.Rule("R10.2", "that write is reachable only through the success edge of builder.Build, writes Build's result, and every 'return nil' of the step lies behind the success edge of the write", 2)
 	r.Rule("R10.3", "Runner.Run leaves the loop at the first failing step (no step runs after a failure), returns that step's error, and returns nil only after the loop; NewRunner keeps the step order; the code generator is the last step of the runner in gontainer.go and occurs once", 4)
 	r.Rule("R10.4", "rule E: every error produced by a call in module code flows into the enclosing function's error result (or is used when there is none); reviewed exceptions are the best-effort prints of the error list and MarkFlagRequired; StepAmalgamated runs every sub-step and joins all results", 60)
 	r.Rule("R10.5", "os.Exit is called only from main.main, with the constant 1, behind rootCmd.Execute() != nil; RunE returns nil iff runner.Run returned nil; no log.Fatal*/os.Exit elsewhere", 3)
@@ -261,6 +261,27 @@ func errAliases(fn *ssa.Function, errv ssa.Value) map[ssa.Value]bool {
 				al[c] = true
 			}
 		})
+		// a variable that holds either nil or the error (`var err error; for … && err == nil { err = step() }`):
+		// it is non-nil exactly when the error it was last assigned is
+		allInstrs(fn, func(_ *ssa.Function, ins ssa.Instruction) {
+			phi, ok := ins.(*ssa.Phi)
+			if !ok || !isErrorType(phi.Type()) {
+				return
+			}
+			okPhi, some := true, false
+			for _, ed := range phi.Edges {
+				switch {
+				case isNilConst(ed):
+				case al[ed]:
+					some = true
+				default:
+					okPhi = false
+				}
+			}
+			if okPhi && some {
+				al[phi] = true
+			}
+		})
 	}
 	return al
 }
@@ -285,13 +306,14 @@ func successEdge(fn *ssa.Function, errv ssa.Value, ins ssa.Instruction) bool {
 }
 
 func failureEdgeBlock(fn *ssa.Function, errv ssa.Value) (*ssa.BasicBlock, bool) {
+	aliases := errAliases(rootFn(fn), errv)
 	for _, b := range fn.Blocks {
 		iff, ok := b.Instrs[len(b.Instrs)-1].(*ssa.If)
 		if !ok {
 			continue
 		}
 		v, nonNilOnTrue, ok := nilTest(iff.Cond)
-		if !ok || v != errv {
+		if !ok || !aliases[v] {
 			continue
 		}
 		if nonNilOnTrue {
@@ -450,26 +472,58 @@ func stepLoopRule(e *Env, rule, rel, name, method string) {
 
 // c10RangeAll: the loop invoking steps is `for _, x := range <field>` (AST), i.e. every element, in order.
 func c10RangeAll(e *Env, rule, rel, name string) {
-	fd, pk := e.P.Decl(rel, name)
 	key := rel + "." + name
-	if fd == nil {
-		e.R.Undecide(rule, key+"#range", "declaration not found")
+	fn := e.P.Func(rel, name)
+	if fn == nil {
+		e.R.Undecide(rule, key+"#range", "function not found")
 		return
 	}
+	// the invoked step is steps[i] with i walking the whole slice upwards from 0 (a range statement, or a
+	// counted loop i := 0; i < len(steps); i++), steps being the receiver's field (directly or via a local)
 	found := false
-	ast.Inspect(fd.Body, func(n ast.Node) bool {
-		rs, ok := n.(*ast.RangeStmt)
-		if !ok {
-			return true
+	for _, c := range callsIn(fn, false) {
+		if !c.Common().IsInvoke() {
+			continue
 		}
-		if se, ok := ast.Unparen(rs.X).(*ast.SelectorExpr); ok {
-			if _, ok := pk.TypesInfo.TypeOf(se).Underlying().(*types.Slice); ok && se.Sel.Name == "steps" {
-				found = true
+		ld, ok := c.Common().Value.(*ssa.UnOp)
+		if !ok {
+			continue
+		}
+		ia, ok := ld.X.(*ssa.IndexAddr)
+		if !ok {
+			continue
+		}
+		x := ia.X
+		// through a local copy of the slice
+		fromSteps := derivesFromField(x, "steps", 0)
+		if !fromSteps {
+			if l2, ok := x.(*ssa.UnOp); ok {
+				if al, ok := l2.X.(*ssa.Alloc); ok {
+					for _, ref := range *al.Referrers() {
+						if st, ok := ref.(*ssa.Store); ok && st.Addr == al && derivesFromField(st.Val, "steps", 0) {
+							fromSteps = true
+						}
+					}
+				}
 			}
 		}
-		return true
-	})
-	e.R.Check(found, rule, key+"#range", "the steps are visited by a range statement over the steps field (all elements, ascending)", e.P.Pos(fd.Pos()))
+		if !fromSteps {
+			continue
+		}
+		if src, ok := rangeIndexOf(ia.Index); ok && (src == x || sameLoad(src, x)) {
+			found = true
+		}
+		if _, ok := countedLoopIndex(fn, x, ia.Index, c); ok {
+			if phi, isPhi := ia.Index.(*ssa.Phi); isPhi {
+				for _, ed := range phi.Edges {
+					if k, isK := constInt(ed); isK && k == 0 {
+						found = true
+					}
+				}
+			}
+		}
+	}
+	e.R.Check(found, rule, key+"#range", "the steps are visited in slice order from the first to the last (a range over the steps field, or a counted loop over it)", e.P.Pos(fn.Pos()))
 }
 
 func ctorKeepsVariadic(e *Env, rule, rel, ctor, field string) {
